@@ -41,9 +41,9 @@ theorem failed_call_then_restart_partial (d : Crash.Disk) (hq : Crash.QuiescentS
    (Crash.crash_safe_corrected d hq op hok k .proc d1 d' hr ho).2.1,
    fun p hp hnr => Crash.entries_survive d hq op hok k .proc d1 d' hr ho p hp hnr⟩
 
-/-! ## WAL level, whole histories (Model/Fault.lean): any sequence of calls, each with at most one failing I/O action
-    (a write leaving nothing, part or all of its batch; an fsync; a create; a meta commit; a stable set; a delete; the
-    background rotation's actions included), the calls that follow running on top of what the failed ones left behind.
+/-! ## WAL level, whole histories (Model/Fault.lean): any sequence of calls, each under any fault plan — any number of its
+    I/O actions failing (a write leaving nothing, part or all of its batch; an fsync; a create; a meta commit; a stable set;
+    deletes; the background rotation's actions included), the calls that follow running on top of what the failed ones left.
     `Epoch p0 h p`: from the state `p0` an Open left, the calls of history `h` (each with its result) lead to `p`.
     The tie of `Model.Fault` to the code is the `faultmodel` suite: every call and every action of it failed in turn on the
     real WAL, result / readers' log / recovered log compared with the model, the invariant evaluated on every state. -/
@@ -65,10 +65,10 @@ theorem restart_applies_failed_calls_in_full_or_not_at_all (p0 p : Fault.Proc) (
 
 /-- one call: the readers' log changes exactly when the call returns nil, and then as specified -/
 theorem failed_call_invisible_successful_call_applied (p : Fault.Proc) (hi : Fault.FInv p) (op : Crash.Op)
-    (hok : Fault.OkV (Fault.view p) op) (k : Option Nat) (wf : Fault.WriteFail) :
-    Fault.view (Fault.runOp p op k wf).1 =
-      if (Fault.runOp p op k wf).2 then Crash.specApply (Fault.view p) op else Fault.view p :=
-  Fault.call_view p hi op hok k wf
+    (hok : Fault.OkV (Fault.view p) op) (pl : Fault.Plan) :
+    Fault.view (Fault.runOp p op pl).1 =
+      if (Fault.runOp p op pl).2 then Crash.specApply (Fault.view p) op else Fault.view p :=
+  Fault.call_view p hi op hok pl
 
 /-- the invariant the above rest on holds in every state of every history (it is executable: the correspondence
     harness evaluates it on every state the model reaches while shadowing the real code) -/
@@ -81,10 +81,10 @@ theorem fault_model_starts : ∃ p, Fault.init = some p ∧ Fault.Fresh p ∧ Fa
 
 /-- without a fault the fault model is the crash model: same actions, the call returns nil -/
 theorem fault_model_extends_crash_model (p : Fault.Proc) (hf : Fault.Fresh p) (op : Crash.Op) (hok : op.ok p.disk)
-    (wf : Fault.WriteFail) :
-    (Fault.runOp p op none wf).1.disk = p.disk.applyAll (Crash.prog p.disk op) ∧ (Fault.runOp p op none wf).2 = true ∧
-    (Fault.runOp p op none wf).1.frozen = none :=
-  Fault.no_fault_agrees p hf op hok wf
+    (pl : Fault.Plan) (hpl : pl.all (·.isNone) = true) :
+    (Fault.runOp p op pl).1.disk = p.disk.applyAll (Crash.prog p.disk op) ∧ (Fault.runOp p op pl).2 = true ∧
+    (Fault.runOp p op pl).1.frozen = none :=
+  Fault.no_fault_agrees p hf op hok pl hpl
 
 /-- the restart theorems as first stated (for the weaker invariant) are false: kept with their refutations -/
 theorem restart_needs_the_stronger_invariant : ¬ Fault.restart_total_stmt0 ∧ ¬ Fault.restart_view_stmt0 :=
